@@ -259,7 +259,7 @@ PROPS['C14'] = {
              {'name': 'fuzz-password', 'kind': 'fuzz', 'flavour': 'fuzz', 'driver': 'fuzz_api', 'mode': 1, 'runs_quick': 100000, 'runs_thorough': 3000000},
              {'name': 'fuzz-buffer', 'kind': 'fuzz', 'flavour': 'fuzz', 'driver': 'fuzz_api', 'mode': 2, 'runs_quick': 200000, 'runs_thorough': 8000000}],
     'require': {'inputs.on_readonly_page_before_guard': 10000, 'class.padded-to-buffer-boundary': 5000, 'class.raw-bytes': 1000, 'class.length-edit': 1000,
-                'calls.load.ERR_FORMAT': 1000, 'calls.load.ERR_MEMORY': 1000, 'flood.phrases': 3000, 'huge.strings': 3, 'flood.nfkd_length.size-1': 100, 'flood.decoded_ok': 500, 'fuzz.execs.fuzz-phrase': 50000, 'fuzz.execs.fuzz-password': 50000, 'fuzz.execs.fuzz-buffer': 50000, 'calls.crypt.len>=4096': 20, 'calls.decode.ERR_MEMORY.len<size-2': 100},
+                'calls.load.ERR_FORMAT': 1000, 'calls.load.ERR_MEMORY': 1000, 'flood.phrases': 3000, 'huge.strings': 3, 'small_stack.threads': 2000, 'flood.nfkd_length.size-1': 100, 'flood.decoded_ok': 500, 'fuzz.execs.fuzz-phrase': 50000, 'fuzz.execs.fuzz-password': 50000, 'fuzz.execs.fuzz-buffer': 50000, 'calls.crypt.len>=4096': 20, 'calls.decode.ERR_MEMORY.len<size-2': 100},
 }
 MANIFEST_TEXT['C14'] = {'technique': 'runtime monitoring: ASan+UBSan (NDEBUG and assertion-enabled builds) on grammar/boundary/raw inputs with exact-size and read-only-before-guard-page buffers, per-case watchdog, allocator ledger; coverage-guided libFuzzer (clang) on three entry points',
     'text': 'Arbitrary strings (all grammar classes, lengths around POLYSEED_STR_SIZE, 2x, 64 KiB, invalid UTF-8, raw bytes) are fed as phrases to both decoders and as passwords to crypt, and mutated/random buffers to load, on exact-size heap blocks and on a read-only page ending at an inaccessible guard page; any sanitizer report, signal, assertion abort or watchdog expiry is a violation, as is a status outside the documented set, a modified input, a block left allocated by a failed call or a non-canonical seed. libFuzzer explores the same three entry points coverage-guided, seeded with grammar output. A dedicated class inflates valid Spanish/French phrases with redundant combining accents so that the decomposed form has exact lengths from size-7 to size+2.',
